@@ -90,7 +90,7 @@ class C03(Check):
             "name; distinct by (entries, destination form, open mode, pre-populated, api).")
     assumptions = ["CPython audit events fire for open/os.mkdir/os.symlink/os.chmod/os.utime/os.remove/os.rename/os.truncate/os.rmdir/os.link",
                    "os.path.realpath at the moment of the call decides the affected location"]
-    budget_s = {"quick": 110, "thorough": 1800}
+    budget_s = {"quick": 135, "thorough": 1800}
     sandbox_timeout = 30
 
     def setup(self, env):
